@@ -53,6 +53,13 @@ type Harness struct {
 	// NthCalls counts list accessor invocations.
 	NthCalls int
 
+	// StaticTypes, when set, are the (named) Go struct types used for the reflection strategy instead of
+	// dynamically built ones; NoRegister leaves their binding to ggql's auto-discovery (by name / @go).
+	StaticTypes map[string]reflect.Type
+	NoRegister  bool
+	// TypedSlices makes reflection objects hold lists of same-typed objects as typed Go slices ([]*T).
+	TypedSlices bool
+
 	objs    map[int]interface{}
 	ptrNode map[interface{}]*model.Node
 	rtypes  map[string]reflect.Type
@@ -69,10 +76,24 @@ var AllKinds = []string{"iface", "any", "reflect", "mixed-any", "mixed-reflect",
 // ErrInjected is the base of every injected failure.
 var ErrInjected = errors.New("injected failure")
 
+// Opts tunes BuildOpts.
+type Opts struct {
+	StaticTypes map[string]reflect.Type
+	NoRegister  bool
+	TypedSlices bool
+	Strat       func(n *model.Node) Strategy // overrides the kind's assignment
+}
+
 // Build creates a root for the schema text and binds the graph under the
 // chosen back-end kind.
 func Build(kind string, s *model.Schema, sdl string, g *model.Graph) (*Harness, error) {
-	h := &Harness{Kind: kind, S: s, G: g, occ: map[model.CallKey]int{}, objs: map[int]interface{}{}, ListMode: 2}
+	return BuildOpts(kind, s, sdl, g, Opts{TypedSlices: true})
+}
+
+// BuildOpts is Build with options.
+func BuildOpts(kind string, s *model.Schema, sdl string, g *model.Graph, o Opts) (*Harness, error) {
+	h := &Harness{Kind: kind, S: s, G: g, occ: map[model.CallKey]int{}, objs: map[int]interface{}{}, ListMode: 2,
+		StaticTypes: o.StaticTypes, NoRegister: o.NoRegister, TypedSlices: o.TypedSlices}
 	switch kind {
 	case "iface":
 		h.Strat = func(*model.Node) Strategy { return Iface }
@@ -108,6 +129,9 @@ func Build(kind string, s *model.Schema, sdl string, g *model.Graph) (*Harness, 
 		h.hasAny = true
 	default:
 		return nil, fmt.Errorf("unknown back-end %s", kind)
+	}
+	if o.Strat != nil {
+		h.Strat = o.Strat
 	}
 	needReflect := kind == "reflect" || kind == "mixed-reflect" || kind == "any-over-reflect"
 	h.ptrNode = map[interface{}]*model.Node{}
@@ -404,6 +428,12 @@ func ReflectFriendly(s *model.Schema) bool {
 
 func (h *Harness) buildTypes() {
 	h.rtypes = map[string]reflect.Type{}
+	if h.StaticTypes != nil {
+		for k, v := range h.StaticTypes {
+			h.rtypes[k] = v
+		}
+		return
+	}
 	anyT := reflect.TypeOf((*interface{})(nil)).Elem()
 	for i, t := range h.S.Types {
 		if t.Kind != model.Object {
@@ -474,13 +504,43 @@ func (h *Harness) reflectObj(n *model.Node) interface{} {
 		if cv == nil {
 			continue
 		}
+		if h.TypedSlices && n.ID%2 == 0 {
+			cv = typedSlice(cv)
+		}
 		pv.Elem().FieldByName(GoFieldName(f.Name)).Set(reflect.ValueOf(cv))
 	}
 	return o
 }
 
+// typedSlice turns a []interface{} whose elements are all non-nil pointers to one struct type into a []*T.
+func typedSlice(v interface{}) interface{} {
+	l, isL := v.([]interface{})
+	if !isL || len(l) == 0 {
+		return v
+	}
+	var et reflect.Type
+	for _, e := range l {
+		if e == nil {
+			return v
+		}
+		t := reflect.TypeOf(e)
+		if t.Kind() != reflect.Ptr || t.Elem().Kind() != reflect.Struct || (et != nil && t != et) {
+			return v
+		}
+		et = t
+	}
+	out := reflect.MakeSlice(reflect.SliceOf(et), len(l), len(l))
+	for i, e := range l {
+		out.Index(i).Set(reflect.ValueOf(e))
+	}
+	return out.Interface()
+}
+
 // register binds every struct type to its GraphQL object type.
 func (h *Harness) register() error {
+	if h.NoRegister {
+		return nil
+	}
 	for name, rt := range h.rtypes {
 		if name == h.S.Query || name == h.S.Mutation || name == h.S.Subscription {
 			// root operation types are bound too (they are ordinary objects)
